@@ -3,14 +3,17 @@ Model: coq/Model/Gating.v; spec: coq/Spec/GatingSpec.v; theorems: coq/Props/C09.
 Every case is one real Manager call on a capturing session (tools/harness/capture.py)."""
 import itertools, json
 ID = 'C09'
-COQ_ROOTS = ['Props/C09.v', 'GenProps/Caps_consts.v', 'GenProps/Gating_consts.v']
+COQ_ROOTS = ['Props/C09.v', 'GenProps/Caps_consts.v', 'GenProps/Gating_consts.v', 'GenProps/VendorGating_consts.v']
 RULE = ('case = (device profile, server capability list, Manager method, arguments). Capability lists: all 2^8 subsets of '
         '{candidate, confirmed-commit, validate:1.0, validate:1.1, rollback-on-error, url, notification, with-defaults} in '
         'both URN forms (and mixed), the 4 subsets of the two power-control URIs, with-defaults URIs over a grammar of '
         'basic-mode/also-supported parameter strings, plus verbatim shorthands and look-alikes. Calls: every gated standard '
         'operation and the junos/sros commit with every combination of the arguments that decide a check (location with/without '
         '"://", enumerated options inside/outside their sets, format, confirmed, with_defaults modes incl. unnormalised) and a '
-        'catalogue of locally refused arguments (bad names/characters, non-strings, bad filters/configs). Observed: exception '
+        'catalogue of locally refused arguments (bad names/characters, non-strings, bad filters/configs). Vendor classes '
+        '(harness/vendorgate.py): alu load_configuration (format x target x config x default_operation), alu get_configuration, '
+        'h3c get_bulk_config (source x filter) x all 2^8 subsets, and every other third_party class (valid and locally refused '
+        'arguments) with and without :url, each through a Manager made with the vendor profile. Observed: exception '
         'class, messages sent, sequence of capability tests, registration. distinct = distinct case; non-trivial = the call '
         'has at least one documented dependency.')
 ASSUMES = ['mode.strip().lower() is computed by CPython and given to the model as the normalised mode (oracle input)',
@@ -99,6 +102,9 @@ def build(spec):
     """spec = [opname, {arg: catalogue id / literal}] -> dict(method, kwargs, model, needs, wf, wd)"""
     op, a = spec
     wd = None
+    if op.startswith('v:'):                     # vendor classes: tools/harness/vendorgate.py (Model/VendorGating.v, runner fn 3)
+        from harness import vendorgate
+        return vendorgate.build(spec)
     if op == 'get':
         f, fv = FILTER[a['filter']]
         kw = dict(filter=f, with_defaults=a['wd'])
@@ -511,6 +517,9 @@ def gen_cases(ctx, rng, tier):
             uris.append(rng.choice((A, B)) + 'with-defaults:1.0' + rng.choice(WD_PARAMS))
             rng.shuffle(uris)
         cases.append(dict(profile=profile_for(call, default=rng.choice(['default', 'default', 'nexus', 'iosxr', 'huawei', 'alu'])), uris=uris, call=call))
+    # (i) vendor classes (alu load_configuration / get_configuration, h3c get_bulk_config: the callers of datastore_or_url; all others)
+    from harness import vendorgate
+    cases += vendorgate.gen_cases(rng, tier, sets)
     return cases
 
 def key_of(case):
@@ -518,7 +527,7 @@ def key_of(case):
 
 def run_cases(ctx, cases, record=True):
     builds = [build(c['call']) for c in cases]
-    calls = [[1, enc_sess(c['uris'], c.get('no_attr', False)), b['model']] for c, b in zip(cases, builds)]
+    calls = [[b.get('fn', 1), enc_sess(c['uris'], c.get('no_attr', False)), b['model']] for c, b in zip(cases, builds)]
     outs = ctx.model.batch(calls) if ctx.model else [None] * len(cases)
     for case, b, mo in zip(cases, builds, outs):
         b2, r = impl_run(case, b)
@@ -527,6 +536,7 @@ def run_cases(ctx, cases, record=True):
             ctx.count(case, nontrivial=bool(b['needs']), key=key_of(case))
             ctx.hist('method', b['method']); ctx.hist('impl_outcome', im['exc'] or 'sent'); ctx.hist('profile', case['profile'])
             ctx.hist('n_needs', len(b['needs'])); ctx.hist('wellformed', b['wf'])
+            if case['call'][0].startswith('v:'): ctx.hist('vendor_call', case['call'][0][2:])
             if ctx.evaluations % 4001 == 1: ctx.sample({'case': json.loads(key_of(case)), 'impl': im})
         if mo is not None:
             if isinstance(mo, str) or (mo and mo[0] == 999):
